@@ -494,7 +494,8 @@ class Shadow:
                 if code.isdigit() and 40 <= int(code) <= 49:
                     self.fail("vec-semantics", "%s: two ways of reaching the same element disagree (%s: 40 erased get/at/get_unchecked, "
                               "41 typed get/at/get_unchecked(_mut), 42 get_mut/at_mut/iter_mut, 43 borrowed iteration/len/size_hint, "
-                              "44 unchecked downcasts, 45 len/is_empty/capacity, 46 element type id/size/clone, 47 Debug, 49 element_drop)" % (what, e))
+                              "44 unchecked downcasts, 45 len/is_empty/capacity, 46 element type id/size/clone, 47 Debug, "
+                              "48 the size / type id / byte view a value offered to the vector reports about itself, 49 element_drop)" % (what, e))
                 else: self.fail("memory", "%s: instrumentation reported %s" % (what, e))
         if o.res.startswith("harness-error"):
             self.fail("oracle-error", "%s: %s" % (what, o.res))
